@@ -114,7 +114,7 @@ class C08(Check):
         "duplicate i, add an unrequested id, add an error object with a null id, retype id i (1<->'1', true, 1.0), null id i} and every whole-body replacement (batch-level "
         "error objects, a single response object, null / number / string / {} / arrays of non-responses); (b) Hypothesis: up to 3 stacked "
         "operations; single calls: id relation {equal, different, null, type-confused} x body shape. x strict on/off x sync/async, read via "
-        "batch.send (positional access, .related, .result) and via batch.add(...).call(). Oracle: reference relation - not a response "
+        "batch.send (positional access, .related, .result), via batch.add(...).call() and - for all-success batches - via a second round trip of the same batch object after two more calls were added (answered in reverse order). Oracle: reference relation - not a response "
         "(array) => DeserializationError; repeated / missing / unrequested / type-confused id => IdentityError; batch-level error => raised "
         "by call()/.result; else every response is linked to the request with its id and position k / tuple element k belongs to call k, "
         "the first failing call in request order is the exception raised (class registered for the code). non-trivial = the program is not "
@@ -128,7 +128,7 @@ class C08(Check):
     required_classes = ['verdict/ok', 'verdict/identity', 'verdict/deser', 'verdict/batch-error', 'op/perm', 'op/omit', 'op/dup', 'op/add',
                         'op/retype', 'op/null', 'op/replace-body', 'single/equal', 'single/different', 'single/null', 'single/type-confused',
                         'strict/on', 'strict/off', 'client/sync', 'client/async', 'reordered-ok', 'error-mix',
-                        'non-strict/faulty-body-accepted', 'server-error-without-id-next-to-all-answers']
+                        'non-strict/faulty-body-accepted', 'server-error-without-id-next-to-all-answers', 'batch-object/second-round-trip']
 
     # ---- generation ------------------------------------------------------------------------------------
 
@@ -233,8 +233,10 @@ class C08(Check):
         discs: List[Disc] = []
         classes_extra: List[str] = []
 
+        reply = [text]
+
         def transport(t: str, is_notification: bool, k: int):
-            return text
+            return reply[0]
 
         # (1) hand-built BatchRequest through batch.send
         client = ch.make_client(kind, transport, strict=strict)
@@ -305,6 +307,31 @@ class C08(Check):
             discs += self._judge_call(verdict, payload, value, exc2, calls, where)
         elif verdict == 'undecided' and null_errors and exc2 is None:
             discs.append(Disc("C08/call/server-error-without-id-swallowed", f"call() returned {value!r} | {where}"))
+        # (3) the SAME batch object used for a second round trip after more calls were added: the server answers all of them, in the
+        # reverse of the request order - results are attributed to the calls in the order the calls were made (all of them)
+        if not discs and all(c['outcome'] == 'ok' for c in calls):
+            extra_ids = ['second-trip-x', 'second-trip-y']
+            ids_iter.extend(extra_ids)
+            all_ids = list(call_ids) + extra_ids
+            client3 = ch.make_client(kind, transport, strict=strict, id_gen_impl=lambda: iter(list(all_ids)))
+            b3 = client3.batch
+            for i in range(len(calls)):
+                b3.add(f'm{i}', i)
+            reply[0] = json.dumps([{'jsonrpc': '2.0', 'id': i, 'result': {'call': n}} for n, i in enumerate(call_ids)])
+            try:
+                first = ch.call(kind, lambda: b3.call())
+                for n in range(len(extra_ids)):
+                    b3.add(f'x{n}', n)
+                reply[0] = json.dumps(list(reversed([{'jsonrpc': '2.0', 'id': i, 'result': {'call': n}} for n, i in enumerate(all_ids)])))
+                second = ch.call(kind, lambda: b3.call())
+                want = [{'call': n} for n in range(len(all_ids))]
+                if not jg.jeq(list(first), want[:len(calls)]) or not jg.jeq(list(second), want):
+                    discs.append(Disc("C08/call/second-round-trip-of-one-batch-object-misattributed",
+                                      f"first {first!r} second {second!r} expected {want} | {where}"))
+            except Exception as e:
+                discs.append(Disc(f"C08/call/second-round-trip-of-one-batch-object-raised/{type(e).__name__}", f"{e!r} | {where}"))
+            classes_extra.append('batch-object/second-round-trip')
+            reply[0] = text
 
         classes = [f"verdict/{verdict}", 'strict/on' if strict else 'strict/off', f"client/{kind}", f"n={len(calls)}"] + classes_extra
         for op in spec['program']:
